@@ -34,6 +34,8 @@ KeyInfo(k) == CASE k = 1 -> <<"short", 1>>        \* "A"
                 [] k = 14 -> <<"reserved", 15>>   \* "ORDERING_SCHEME"  a long name is stored as a HIERARCH card, but the reader
                 [] k = 15 -> <<"reserved", 11>>   \* "PERIODICITY"      filters cards by the same prefixes whatever their length,
                 [] k = 16 -> <<"reserved", 13>>   \* "TYPE_OF_TABLE"    so an accepted one would not survive the round trip
+                [] k = 17 -> <<"short", 5>>       \* "LOWER"             the upper-case spellings of keys 7 and 8: a lookup is by the
+                [] k = 18 -> <<"long", 16>>       \* "MIXEDLONGKEYNAME"  exact string, "lower" stays absent while "LOWER" is present
                 [] OTHER -> <<"short", 1>>
 \* value id -> <<type, rendered length, number of single quotes, integer value (ints only)>>
 ValInfo(v) == CASE v = 1 -> <<"int", 2, 0, 42>>
